@@ -11,6 +11,13 @@ import subprocess
 import sys
 import time
 
+try:  # z3 bindings live in the tooling venv
+    import z3  # noqa: F401
+except ImportError:
+    if os.environ.get("RQV_REEXEC") != "1":
+        os.environ["RQV_REEXEC"] = "1"
+        os.execvp("python3-vt", ["python3-vt"] + sys.argv)
+
 sys.path.insert(0, os.path.dirname(os.path.abspath(__file__)))
 from rqv import overlay as ov, kani as K  # noqa: E402
 
@@ -63,6 +70,21 @@ def main():
         for kind, target, features in (("kani", "lib", False), ("kani", "lib", True), ("kani", "bin", False),
                                        ("kani", "bin", True), ("replay", "lib", False), ("replay", "bin", False)):
             build(kind, target, features, work)
+        # MIR dump and native build caches (Engine B and binary replays)
+        try:
+            from rqv import mirvc, native
+            t0 = time.time()
+            mirvc.dump_mir(work, "bin")
+            shutil.rmtree(os.path.join(K.CACHE, "target-mir"), ignore_errors=True)
+            shutil.move(os.path.join(work, "mir_target"), os.path.join(K.CACHE, "target-mir"))
+            print("%-28s ok %.0fs" % ("target-mir", time.time() - t0), flush=True)
+            t0 = time.time()
+            native.build_binary(work)
+            shutil.rmtree(os.path.join(K.CACHE, "target-native"), ignore_errors=True)
+            shutil.move(os.path.join(work, "native_target"), os.path.join(K.CACHE, "target-native"))
+            print("%-28s ok %.0fs" % ("target-native", time.time() - t0), flush=True)
+        except Exception as e:
+            print("warning: MIR / native cache not built: %s" % str(e)[:300])
         # tools present?
         for tool in ("z3", "cvc5", "cbmc"):
             if shutil.which(tool) is None:
